@@ -2,7 +2,7 @@
    Only statements, [exact] and [Print Assumptions] live here. *)
 From Coq Require Import List Arith Bool NArith.
 From GV Require Import Base.Result Gen.TokenTypes Gen.Defs Gen.Instr Model.Parser Model.BuilderWL Model.Compile
-  Spec.WfCode Proofs.C05.Known Proofs.C05.WfSound Proofs.C05.Bounded Proofs.C05.Refuted.
+  Spec.WfCode Proofs.C05.Known Proofs.C05.WfSound Proofs.C05.Bounded Proofs.C05.Refuted Proofs.C05.Operands.
 Import ListNotations.
 
 (* the executable checker (run natively on every real instruction stream by the
@@ -72,6 +72,22 @@ Theorem C05_K2_refuted :
 Proof. exact K2_refuted. Qed.
 Print Assumptions C05_K2_refuted.
 
+(* inductive, for EVERY proper tree and EVERY initial state of the data object
+   (no exclusion): the code the tree compiler produces satisfies the operand
+   clause (every instruction has the operand kind the runtime expects; Put /
+   Resolve name constants made from literal / identifier nodes; every jump
+   operand and expression value names a jump entry of this build) and the
+   metadata clause (one record per instruction, naming an existing node) *)
+Theorem C05_operands_meta_all_trees : forall nodes root t init lit r,
+  tree_of nodes root = Some t ->
+  compile init lit t = Ok r ->
+  operands_wf nodes init (code_of_compile r) /\ meta_wf nodes (code_of_compile r).
+Proof.
+  intros nodes root t init lit r Ht Hc.
+  exact (compile_operands_meta nodes init lit t r (tree_of_in nodes root t Ht) Hc).
+Qed.
+Print Assumptions C05_operands_meta_all_trees.
+
 (* the full statement: for every node array that is a proper tree below its
    root and every initial state of the data object, outside the two classes,
    a successful build by the tree compiler is well-formed *)
@@ -80,7 +96,7 @@ Definition C05_full_statement : Prop :=
     tree_of nodes root = Some t ->
     ~ Known_C05_K1 init t -> ~ Known_C05_K2 t ->
     compile init lit t = Ok r ->
-    wf_code nodes init (mkCode (ci (fst r)) (cm (fst r)) (cj (fst r)) (snd r)).
+    wf_code nodes init (code_of_compile r).
 
 (* non-vacuity: a program with a conditional, a logical operator and a nested
    expression is accepted, is in no excluded class, and is well-formed *)
